@@ -1,0 +1,73 @@
+//go:build verif
+
+package engine
+
+// Contracts for govc (see /verif/DESIGN.md, section 3.2). Comment-only file: nothing here is compiled into the library.
+// Every contract line starts with "//@". Integers in spec expressions are mathematical; Go integer values are lifted
+// implicitly. + - * / on float64 are the IEEE-754 operations with round-to-nearest-even.
+
+//@ ---------------------------------------------------------------- prelude
+
+//@ spec fun inI64(v int) bool = -9223372036854775808 <= v && v <= 9223372036854775807
+//@ spec fun sgn(v int) int = ite(v > 0, 1, ite(v < 0, -1, 0))
+//@ spec fun finite(f float64) bool = !fp.isNaN(f) && !fp.isInf(f)
+
+//@ spec fun intResI(E int, r Integer, e error) bool =
+//@     (inI64(E) ==> e == nil && r == E) && (!inI64(E) ==> e == exceptionalValueIntOverflow)
+//@ spec fun divResI(y int, Q int, r Integer, e error) bool =
+//@     (y == 0 ==> e == exceptionalValueZeroDivisor) && (y != 0 ==> intResI(Q, r, e))
+
+//@ ---------------------------------------------------------------- integer kernels (C07)
+
+//@ func addI
+//@   property C07
+//@   enc int
+//@   ensures[exact-or-overflow] intResI(x + y, result, err)
+
+//@ func subI
+//@   property C07
+//@   enc int
+//@   ensures[exact-or-overflow] intResI(x - y, result, err)
+
+//@ func mulI
+//@   property C07
+//@   enc int
+//@   ensures[exact-or-overflow] intResI(x * y, result, err)
+
+//@ func intDivI
+//@   property C07
+//@   enc int
+//@   ensures[truncating] divResI(y, tdiv(x, y), result, err)
+
+//@ func remI
+//@   property C07
+//@   enc int
+//@   ensures[rem] divResI(y, trem(x, y), result, err)
+
+//@ func modI
+//@   property C07
+//@   enc int
+//@   ensures[mod] divResI(y, fmod(x, y), result, err)
+
+//@ func intFloorDivI
+//@   property C07
+//@   enc int
+//@   ensures[flooring] divResI(y, fdiv(x, y), result, err)
+
+//@ func negI
+//@   property C07
+//@   enc int
+//@   ensures[exact-or-overflow] intResI(-x, result, err)
+
+//@ func absI
+//@   property C07
+//@   enc int
+//@   ensures[exact-or-overflow] intResI(ite(x < 0, -x, x), result, err)
+
+//@ func signI
+//@   property C07
+//@   ensures[sign] result == sgn(x)
+
+//@ func posI
+//@   property C07
+//@   ensures[identity] err == nil && result == x
